@@ -73,6 +73,7 @@ type Attr struct {
 type Branch struct {
 	Header string // "if b0", "else if b1", "else", "for _, x := range xs", "case ..."
 	Braces bool   // written with trailing " {"
+	Pad    string // white space after the header, before the line break
 	Cond   string // bool fragment ("" for else)
 	Kids   []*Node
 }
@@ -86,6 +87,7 @@ type Node struct {
 	ClassAttr   string   // class:"..." static
 	ClassExprs  []string // class:#{a, b}
 	ObjRef      string   // [o0] or [o0, "pre"]
+	Pad         string   // KStmt: white space after the statement, before the line break
 	Attrs       []Attr
 	AttrsCmd    string // @attributes: #{m0, mb}
 	AttrLayout  int    // 0 compact, 1 spaced, 2 multi-line, 3 multi-line trailing comma
@@ -138,6 +140,7 @@ type File struct {
 	ImportGroup bool
 	Chrome   []string // Go code blocks between templates (index i placed before template i; last after)
 	Templates []*Template
+	VerbStyle int // 0: `%d x`; 1: `%d  x`; 2: `#{%d x }`; 3: both
 }
 
 // Printer writes the file and records fragments with the generator's own positions.
@@ -148,6 +151,7 @@ type Printer struct {
 	colB  int
 	Frags []Frag
 	Feat  map[string]int
+	VerbStyle int
 }
 
 func NewPrinter() *Printer { return &Printer{Feat: map[string]int{}} }
@@ -191,10 +195,22 @@ func quoteStatic(v string, q byte) string {
 func (p *Printer) interp(kind, verb, expr string) {
 	p.w("#{")
 	if verb != "" {
-		p.w(verb + " ")
+		p.w(verb + p.verbSep())
 	}
 	p.frag(kind, expr)
+	if verb != "" && p.VerbStyle >= 2 {
+		p.w(" ") // white space before the closing brace
+	}
 	p.w("}")
+}
+
+// verbSep: what separates a format verb from its argument (one blank, or several)
+func (p *Printer) verbSep() string {
+	if p.VerbStyle == 1 || p.VerbStyle == 3 {
+		p.feat("verb.wide-separator")
+		return "  "
+	}
+	return " "
 }
 
 func (p *Printer) parts(ps []Part) {
@@ -362,7 +378,7 @@ func (p *Printer) node(n *Node, indent int) {
 				p.w("= ")
 				if in.Verb != "" {
 					p.feat("script.verb")
-					p.w(in.Verb + " ")
+					p.w(in.Verb + p.verbSep())
 				}
 				p.frag("script", in.Expr)
 			} else {
@@ -400,7 +416,7 @@ func (p *Printer) node(n *Node, indent int) {
 		p.w("= ")
 		if n.Verb != "" {
 			p.feat("script.verb")
-			p.w(n.Verb + " ")
+			p.w(n.Verb + p.verbSep())
 		}
 		p.frag("script", n.Expr)
 		p.w("\n")
@@ -414,7 +430,7 @@ func (p *Printer) node(n *Node, indent int) {
 				h += " {"
 			}
 			p.frag("silent", h)
-			p.w("\n")
+			p.w(b.Pad + "\n")
 			for _, k := range b.Kids {
 				p.node(k, indent+1)
 			}
@@ -428,7 +444,7 @@ func (p *Printer) node(n *Node, indent int) {
 		p.feat("stmt")
 		p.w(tabs + "- ")
 		p.frag("silent", n.Code)
-		p.w("\n")
+		p.w(n.Pad + "\n")
 	case KRubyComment:
 		p.feat("rubycomment")
 		p.w(tabs + "-# " + n.Code + "\n")
@@ -492,6 +508,7 @@ func (p *Printer) node(n *Node, indent int) {
 // Print renders the file to template source.
 func (f *File) Print() (*Printer, string) {
 	p := NewPrinter()
+	p.VerbStyle = f.VerbStyle
 	if f.Package != "" {
 		p.w("package ")
 		p.frag("package", f.Package)
